@@ -620,6 +620,24 @@ pub fn rec_block1(args: &Args) {
         let room = m.saturating_sub(ov);
         for pl in [room.saturating_sub(46), room.saturating_sub(13), room.saturating_sub(12), room.saturating_sub(1), room, room + 1, room + 200] {
             let mut h = H::new(&mut out, m, 3_600_000, start);
+            // sometimes the key has seen other things before: a block-wise fetch of a large reply that was
+            // abandoned at a later block, an upload left unfinished
+            if pl % 3 == 1 {
+                let tag = json!({"kind": "too-large-history"});
+                let p0 = mkreq(&ReqSpec { code: 2, typ: 0, mid: r.next() as u16, tok: r.bytes(toklen), segs: &sg, b1: None, b2: Some((0, false, 0)), pay: vec![], extra: vec![] });
+                let (o, mut rq) = h.ireq(&mut out, "client-p", &p0, &tag);
+                if o["k"] == "ok" && o["handled"] == false {
+                    if let Some(resp) = rq.response.as_mut() {
+                        resp.message.payload = body_bytes(90, 4);
+                    }
+                    let _ = h.iresp(&mut out, "client-p", &mut rq, &tag);
+                }
+                let p1 = mkreq(&ReqSpec { code: 2, typ: 0, mid: r.next() as u16, tok: r.bytes(toklen), segs: &sg, b1: None, b2: Some((2, false, 0)), pay: vec![], extra: vec![] });
+                let _ = h.ireq(&mut out, "client-p", &p1, &tag);
+            } else if pl % 3 == 2 {
+                let u0 = mkreq(&ReqSpec { code: 2, typ: 0, mid: r.next() as u16, tok: r.bytes(toklen), segs: &sg, b1: Some((0, true, 0)), b2: None, pay: body_bytes(16, 1), extra: vec![] });
+                let _ = h.ireq(&mut out, "client-p", &u0, &json!({"kind": "too-large-history"}));
+            }
             let pkt = mkreq(&ReqSpec { code: 2, typ: r.below(2), mid: r.next() as u16, tok: r.bytes(toklen), segs: &sg, b1: None, b2: None, pay: r.bytes(pl), extra: vec![] });
             let _ = h.ireq(&mut out, "client-p", &pkt, &json!({"kind": "too-large"}));
         }
